@@ -104,7 +104,19 @@ func opFile(st *state, args []string) []string {
 		if fill < 0 {
 			fill = 0
 		}
-		return []byte(head + strings.Repeat(string(rune('a'+i%26)), fill) + ">")
+		// a payload may itself end in bytes of the separator (binary output, a text form ending in a line feed)
+		tail := ""
+		if len(sep) > 0 {
+			switch (i + fileRunSeq) % 4 {
+			case 1:
+				tail = string(sep[len(sep)-1:])
+			case 2:
+				tail = string(sep)
+			case 3:
+				tail = string(sep[:1])
+			}
+		}
+		return []byte(head + strings.Repeat(string(rune('a'+i%26)), fill) + ">" + tail)
 	}
 	done := make([]chan error, n)
 	started := make([]bool, n)
@@ -235,10 +247,9 @@ func opFile(st *state, args []string) []string {
 			continue
 		}
 		id, _ := strconv.Atoi(string(all[pos+loc[2] : pos+loc[3]]))
-		unit := all[pos : pos+loc[1]]
-		if id >= 0 && id < n && bytes.Equal(unit, msg(id)) && bytes.HasPrefix(all[pos+loc[1]:], sep) {
+		if id >= 0 && id < n && bytes.HasPrefix(all[pos:], append(msg(id), sep...)) {
 			count[id]++
-			pos += loc[1] + len(sep)
+			pos += len(msg(id)) + len(sep)
 		} else {
 			junk++
 			pos++
@@ -310,7 +321,18 @@ func opFileStress(st *state, args []string) []string {
 		if fill < 0 {
 			fill = 0
 		}
-		return []byte(head + strings.Repeat(string(rune('a'+(w+i)%26)), fill) + ">")
+		tail := ""
+		if len(sep) > 0 {
+			switch (w + i) % 5 {
+			case 1:
+				tail = string(sep[len(sep)-1:])
+			case 2:
+				tail = string(sep)
+			case 3:
+				tail = string(sep[:1])
+			}
+		}
+		return []byte(head + strings.Repeat(string(rune('a'+(w+i)%26)), fill) + ">" + tail)
 	}
 	var wg sync.WaitGroup
 	var failed int64
@@ -377,10 +399,9 @@ func opFileStress(st *state, args []string) []string {
 		}
 		w, _ := strconv.Atoi(string(all[pos+loc[2] : pos+loc[3]]))
 		i, _ := strconv.Atoi(string(all[pos+loc[4] : pos+loc[5]]))
-		unit := all[pos : pos+loc[1]]
-		if w >= 0 && w < workers && i >= 0 && i < per && bytes.Equal(unit, msg(w, i)) && bytes.HasPrefix(all[pos+loc[1]:], sep) {
+		if w >= 0 && w < workers && i >= 0 && i < per && bytes.HasPrefix(all[pos:], append(msg(w, i), sep...)) {
 			count[[2]int{w, i}]++
-			pos += loc[1] + len(sep)
+			pos += len(msg(w, i)) + len(sep)
 		} else {
 			junk++
 			nx := bytes.IndexByte(all[pos+1:], '<')
